@@ -194,6 +194,22 @@ func init() {
 		}
 		k(st, tv(ex.vc.fresh("sprint", SStr)), false)
 	}
+	// in-place library sorts: the slice keeps its length, its contents are a permutation (not tracked)
+	sortModel := func(ex *Exec, fr *Frame, callee *ssa.Function, args []Val, st *State, k CallCont) {
+		a := args[0]
+		if a.K == VTerm && strings.HasPrefix(a.T.Sort, "Seq_") {
+			n := ex.vc.fresh("sorted", a.T.Sort)
+			st.assume(app("=", app("sq_len_"+a.T.Sort, n.S), app("sq_len_"+a.T.Sort, a.T.S)))
+			if a.Prov != nil {
+				ex.store(st, a.Prov, tv(n))
+			} else {
+				ex.vc.note("library sort of a slice of unknown origin at %s: the reordering is not tracked", ex.where())
+			}
+		}
+		k(st, Val{}, false)
+	}
+	externModels["sort.Strings"] = sortModel
+	externModels["sort.Ints"] = sortModel
 	noop := func(ex *Exec, fr *Frame, callee *ssa.Function, args []Val, st *State, k CallCont) {
 		k(st, ex.resultVal(st, callee.Signature, "lib"), false)
 	}
